@@ -49,7 +49,7 @@ PROPS = {
     ),
 }
 
-PROBES = {'C18': ['solver_paused_nonempty', 'two_pausers', 'notify_no_waiter', 'interface_threads_with_equal_names', 'two_waiters_meet_before_cont',
+PROBES = {'C18': ['solver_paused_nonempty', 'two_pausers', 'notify_no_waiter', 'interface_threads_with_equal_names', 'two_waiters_meet_before_cont', 'generated_method_called_with_keywords',
                   'queued_while_paused', 'get_result_before_exec', 'get_result_after_exec',
                   'queue_nonempty_at_cp_entry', 'cont_while_solver_between_cps',
                   'wait_returned', 'cli_frontend_runs', 'drain_phase_needed', 'real_solver_loop']}
@@ -301,7 +301,12 @@ def _iface_ops(h, ctrl, idx, ops, cm, tids, depth=0):
             elif k == 'qnamed':
                 key = h.fresh('tag_')
                 h.issued[key] = dict(kind='named', thread=idx, queued_seq=None, tid=None)
-                tid = ctrl.get_named_particle_array('fluid', [key])
+                # the generated controller methods take their arguments by position or by keyword
+                if h.uniq % 2:
+                    tid = ctrl.get_named_particle_array('fluid', props=[key])
+                    h.probe('generated_method_called_with_keywords')
+                else:
+                    tid = ctrl.get_named_particle_array('fluid', [key])
                 expect = [('val', key)]
             else:
                 key = h.fresh('n')
